@@ -207,6 +207,70 @@ Qed.
 Definition window_bounded (w : window) : Prop :=
   0 <= lowLimit w < two32 /\ 0 <= dictLimit w < two32 /\ 0 <= nbOvf w < two32.
 
+Lemma correction_spec_gen cl wl curr :
+  params_ok cl wl -> 0 <= curr < two32 -> newCurrent_of cl (2 ^ wl) curr <= curr ->
+  correction_of cl (2 ^ wl) curr = curr - newCurrent_of cl (2 ^ wl) curr /\
+  0 <= correction_of cl (2 ^ wl) curr < two32.
+Proof.
+  intros Hp Hc Hle.
+  pose proof (newCurrent_bounds _ _ _ Hp Hc) as [Hlo _].
+  pose proof (params_pow _ _ Hp) as [_ Hmd].
+  unfold correction_of. rewrite u32_small by (consts; lia). consts. lia.
+Qed.
+
+Lemma correction_preserves_window_gen :
+  forall (w : window) (cl wl src : Z),
+    params_ok cl wl -> window_bounded w ->
+    0 <= src - base w < two32 ->
+    newCurrent_of cl (2 ^ wl) (src - base w) <= src - base w ->
+    let curr := src - base w in
+    let '(w', corr) := window_correctOverflow w cl (2 ^ wl) src in
+    let newCurrent := src - base w' in
+    (* the correction is a genuine reduction, computed without wrap-around *)
+    0 <= corr < two32 /\ newCurrent = curr - corr /\ idx w' src = newCurrent /\
+    (* the full window stays addressable above the reserved indices *)
+    2 ^ wl + START <= newCurrent /\
+    newCurrent <= 2 ^ cl + Z.max (2 ^ wl) (2 ^ cl) + 1 /\
+    (* chain / binary tree position bits *)
+    Z.land newCurrent (2 ^ cl - 1) = Z.land curr (2 ^ cl - 1) /\
+    (* limits: clamped at START, order and upper bound kept *)
+    START <= lowLimit w' /\ START <= dictLimit w' /\
+    (lowLimit w <= dictLimit w -> lowLimit w' <= dictLimit w') /\
+    (dictLimit w <= curr -> dictLimit w' <= newCurrent) /\
+    (lowLimit w <= curr -> lowLimit w' <= newCurrent) /\
+    nextSrc w' = nextSrc w /\ dictBase w' - base w' = dictBase w - base w /\
+    nbOvf w' = u32 (nbOvf w + 1) /\
+    (* every index that is still reachable keeps its byte, its distance and stays valid *)
+    (forall i, corr + START <= i <= curr ->
+       base w' + (i - corr) = base w + i /\ dictBase w' + (i - corr) = dictBase w + i /\
+       newCurrent - (i - corr) = curr - i /\
+       (lowLimit w <= i -> lowLimit w' <= i - corr) /\
+       (dictLimit w <= i -> dictLimit w' <= i - corr) /\
+       (i < dictLimit w -> i - corr < dictLimit w')) /\
+    (* and every index within maxDist of the current position is such an index *)
+    (forall i, i <= curr -> curr - i <= 2 ^ wl -> corr + START <= i).
+Proof.
+  intros w cl wl src Hp Hb Hc Hmin. cbv zeta.
+  unfold window_correctOverflow, idx.
+  rewrite (u32_small (src - base w)) by assumption.
+  set (curr := src - base w) in *.
+  destruct (correction_spec_gen cl wl curr Hp Hc Hmin) as [Hcorr Hcr].
+  pose proof (newCurrent_bounds cl wl curr Hp Hc) as [Hnlo Hnhi].
+  pose proof (newCurrent_cycle_land cl wl curr Hp Hc) as Hcyc.
+  pose proof (params_pow _ _ Hp) as [Hcs Hmd].
+  set (corr := correction_of cl (2 ^ wl) curr) in *.
+  set (nc := newCurrent_of cl (2 ^ wl) curr) in *.
+  destruct Hb as [Hlow [Hdl Hnb]].
+  cbn [base dictBase lowLimit dictLimit nbOvf nextSrc].
+  assert (Hcs2 : corr + START < two32) by (consts; lia).
+  rewrite !rebase_limit_spec by (try assumption; lia).
+  replace (src - (base w + corr)) with nc by lia.
+  rewrite (u32_small nc) by (consts; lia).
+  consts.
+  repeat split; intros;
+    repeat match goal with |- context [?a <? ?b] => destruct (Z.ltb_spec a b) end; try lia.
+Qed.
+
 Lemma correction_preserves_window_lemma :
   forall (w : window) (cl wl src : Z),
     params_ok cl wl -> window_bounded w ->
@@ -239,23 +303,14 @@ Lemma correction_preserves_window_lemma :
     (* and every index within maxDist of the current position is such an index *)
     (forall i, i <= curr -> curr - i <= 2 ^ wl -> corr + START <= i).
 Proof.
-  intros w cl wl src Hp Hb Hc Hmin. cbv zeta.
-  unfold window_correctOverflow, idx.
-  rewrite (u32_small (src - base w)) by assumption.
-  set (curr := src - base w) in *.
-  destruct (correction_spec cl wl curr Hp Hc Hmin) as [Hcorr Hcr].
-  pose proof (newCurrent_bounds cl wl curr Hp Hc) as [Hnlo Hnhi].
-  pose proof (newCurrent_cycle_land cl wl curr Hp Hc) as Hcyc.
-  pose proof (params_pow _ _ Hp) as [Hcs Hmd].
-  set (corr := correction_of cl (2 ^ wl) curr) in *.
-  set (nc := newCurrent_of cl (2 ^ wl) curr) in *.
-  destruct Hb as [Hlow [Hdl Hnb]].
-  cbn [base dictBase lowLimit dictLimit nbOvf nextSrc].
-  assert (Hcs2 : corr + START < two32) by (consts; lia).
-  rewrite !rebase_limit_spec by (try assumption; lia).
-  replace (src - (base w + corr)) with nc by lia.
-  rewrite (u32_small nc) by (consts; lia).
-  consts.
-  repeat split; intros;
-    repeat match goal with |- context [?a <? ?b] => destruct (Z.ltb_spec a b) end; try lia.
+  intros w cl wl src Hp Hb Hc Hmin.
+  pose proof (newCurrent_lt cl wl (src - base w) Hp Hc Hmin) as Hlt.
+  pose proof (correction_preserves_window_gen w cl wl src Hp Hb Hc ltac:(lia)) as H.
+  cbv zeta in H |- *.
+  destruct (window_correctOverflow w cl (2 ^ wl) src) as [w' corr] eqn:Ew.
+  destruct H as (H1 & H2 & H3 & Hrest).
+  assert (Hcorr : corr = correction_of cl (2 ^ wl) (idx w src)) by (unfold window_correctOverflow in Ew; inversion Ew; reflexivity).
+  unfold idx in Hcorr. rewrite (u32_small (src - base w)) in Hcorr by assumption.
+  destruct (correction_spec cl wl (src - base w) Hp Hc Hmin) as [_ Hpos]. rewrite <- Hcorr in Hpos.
+  split; [exact Hpos|]. split; [exact H2|]. split; [exact H3|]. exact Hrest.
 Qed.
